@@ -380,6 +380,28 @@ def f37_fillnumpy_negative_weights():
     return h.entries != sum(v.entries for v in h.values) or g.entries < 0.0
 
 
+def f38_sparse_fast_path_transformed_count():
+    import numpy as np
+    f = lambda w: w * w + 1
+    a, b = hg.SparselyBin(1.0, lambda x: x, hg.Count(f)), hg.SparselyBin(1.0, lambda x: x, hg.Count(f))
+    data = np.array([0.5, 0.6, 0.7, 1.5])
+    for x in data:
+        a.fill(float(x))
+    b.fill.numpy(data)
+    return a.toJson() != b.toJson()
+
+
+def f39_count_numpy_transforms_zero_weight_rows():
+    import numpy as np
+    f = lambda w: w * w + 1
+    a, b = hg.Bin(2, 0, 2, lambda x: x, hg.Count(f)), hg.Bin(2, 0, 2, lambda x: x, hg.Count(f))
+    data = np.array([0.5, 1.5, float("inf")])       # the inf row sends Bin to its general (masking) path
+    for x in data:
+        a.fill(float(x))
+    b.fill.numpy(data)
+    return a.toJson() != b.toJson()
+
+
 if __name__ == "__main__":
     present = 0
     for name, fn in sorted((k, v) for k, v in globals().items() if k.startswith("f") and k[1:3].isdigit()):
